@@ -64,29 +64,33 @@ def parse_direct(line):
 # A crash of the runner on a well-formed request naming a catalogued model is a failure
 # of the property.  Classes are identified by model + trigger; a crash outside every
 # listed trigger gets the key crash:<Model>:unclassified (never a known finding).
-def date_invalid(P, L, ins):
+NAN_GUARDS = ('panic: outflow is nan', 'panic: NAN!', 'panic: delta is NaN', 'panic: nan')
+
+
+def date_invalid(P, L, ins, pmsg):
     m = P.get('startMonth', 0.0)
     return L > 0 and not (1 <= int(m) <= 12)
 
 
 TRIGGERS = {
     'DateGenerator': [('invalid-start-month', date_invalid)],
-    'GR4J': [('x4-not-positive', lambda P, L, ins: P.get('X4', 0.0) <= 0.0)],
-    'RatingCurvePartition': [('table-never-dimensioned', lambda P, L, ins: L > 0)],
-    'Storage': [('table-never-dimensioned', lambda P, L, ins: True)],
-    'InstreamDissolvedNutrientDecay': [('zero-length-series', lambda P, L, ins: L == 0)],
-    'StorageTrapAll': [('zero-length-series', lambda P, L, ins: L == 0)],
-    'Lag': [('negative-lag', lambda P, L, ins: P.get('timeLag', 0.0) < 0.0)],
+    'GR4J': [('x4-out-of-range', lambda P, L, ins, pmsg: P.get('X4', 0.0) <= 0.0 or P.get('X4', 0.0) >= 2.0 ** 31)],
+    'RatingCurvePartition': [('table-never-dimensioned', lambda P, L, ins, pmsg: L > 0)],
+    'Storage': [('table-never-dimensioned', lambda P, L, ins, pmsg: True)],
+    'InstreamDissolvedNutrientDecay': [('zero-length-series', lambda P, L, ins, pmsg: L == 0)],
+    'StorageTrapAll': [('zero-length-series', lambda P, L, ins, pmsg: L == 0)],
+    'Lag': [('lag-out-of-range', lambda P, L, ins, pmsg: P.get('timeLag', 0.0) < 0.0 or P.get('timeLag', 0.0) >= 2.0 ** 31)],
+    'StorageRouting': [('nan-guard-panic', lambda P, L, ins, pmsg: pmsg.strip() in NAN_GUARDS)],
 }
 
 
-def crash_key(model, P, L, ins, split, direct, nnames):
+def crash_key(model, P, L, ins, split, direct, nnames, pmsg):
     """key of a crash / missing document for a request naming catalogued model [model]"""
     if direct is not None and split and len(direct[1]) < nnames:
         return 'split-states-short:%s' % model
     for name, pred in TRIGGERS.get(model, []):
         try:
-            if pred(P, L, ins):
+            if pred(P, L, ins, pmsg):
                 return 'crash:%s:%s' % (model, name)
         except Exception:
             pass
@@ -112,6 +116,10 @@ class Gen:
                           'startYear': rng.randint(1890, 2110)}[name])
         if name == 'timeLag':
             return float(rng.randint(1, 4))
+        if model == 'StorageRouting' and name in ('InflowBias', 'RoutingConstant', 'RoutingPower'):
+            # no range is declared for these; stay inside the documented meaning (bias in [0,1), k > 0, m around 1)
+            return {'InflowBias': rng.choice([0.0, rng.uniform(0, 0.9)]), 'RoutingConstant': rng.uniform(0.1, 100.0),
+                    'RoutingPower': rng.choice([1.0, rng.uniform(0.5, 1.5)])}[name]
         if name in ('nPts', 'nLVA'):
             return float(rng.choice([0, 1]))
         if lo < hi:
@@ -147,7 +155,7 @@ class Gen:
         if not wild:
             have = {n for n, _ in plist}
             for p in ps:
-                if (m['Name'] == 'DateGenerator' or p['Name'] in ('X4', 'timeLag')) and p['Name'] not in have:
+                if (m['Name'] in ('DateGenerator', 'StorageRouting') or p['Name'] in ('X4', 'timeLag')) and p['Name'] not in have:
                     plist.append((p['Name'], self.pvalue(m['Name'], p)))
         if kind in ('superset', 'dups') or rng.random() < 0.15:
             plist.append(('zz_unknown_%d' % rng.randint(0, 9), rng.uniform(-5, 5)))
@@ -492,7 +500,7 @@ def main():
         for _ in range(per_model):
             cases.append(g.structured(m))
     # unknown / empty / absent model name
-    for nm in ('NoSuchModel', '', None, 'gr4j', 'Sum '):
+    for nm in ('NoSuchModel', '', None, 'gr4j', 'Sum.'):
         for _ in range(2 if quick else 10):
             base = g.structured(rng.choice(desc))
             cs = g.finish(nm, base['params'], base['inputs'], base['states'], 'badname')
@@ -536,12 +544,27 @@ def main():
         il = None
         if 'col' in e:
             il = out[ix + (2 if e['cls'] == 'run' else 1)]
-        mlines.append(rs_line(cs, e, by_name, il))
+        if e['cls'] == 'run' and e['m']['Dimensions']:
+            # tabular parameters: the runner never calls InitialiseDimensions, so the kernel it runs is not the
+            # registered (dimensioned) one; only the property oracle applies (known finding table-never-dimensioned)
+            cs['model_skipped'] = True
+            mlines.append('JSV 0000000000000000')
+        elif cs['wild'] and any(abs(v) > 1e4 for _, v in cs['params']):
+            # extracted kernels iterate over nat-sized buffers (Lag, GR4J unit hydrographs): keep the model run bounded
+            cs['model_skipped'] = True
+            mlines.append('JSV 0000000000000000')
+        else:
+            mlines.append(rs_line(cs, e, by_name, il))
+    log('structured: %d requests run on the implementation; running the model' % len(cases))
+    with open(os.path.join(OUT, 'C17', 'model_lines.txt'), 'w') as fh:
+        fh.write('\n'.join(mlines) + '\n')
     mout = run_model(mlines, timeout=3000)
+    log('model done')
 
     stats = {}
+    debug = {'crashes': []}
     registry_models, nokernel_models = set(), set()
-    model_compared = model_skipped = 0
+    model_compared = model_skipped = model_skipped_wild = 0
     nonfinite_leaves = {'s:NaN': 0, 's:+Inf': 0, 's:-Inf': 0}
 
     def bump(k):
@@ -584,13 +607,15 @@ def main():
         if not answered:
             ok = False
             if e['cls'] in ('run', 'noinputs', 'length'):
-                key = crash_key(name, e['P'], e.get('L', 0), e.get('rows'), cs['split'], direct, len(e['m']['States']))
+                key = crash_key(name, e['P'], e.get('L', 0), e.get('rows'), cs['split'], direct, len(e['m']['States']), replay['panic'])
             else:
                 key = 'crash:request-class-%s' % e['cls']
             replay['kind'] = 'no-single-valid-document-or-crash'
             replay['key'] = key
             replay['direct_run'] = 'ok' if direct else ('n/a' if e['cls'] != 'run' else 'also panics')
             bump('crash:' + key)
+            debug['crashes'].append({'key': key, 'panic': replay['panic'], 'request': cs['text'][:600], 'exit': f['exit'],
+                                     'docs': f['docs'], 'wild': cs['wild'], 'direct': replay['direct_run']})
             c.violation('crash_%d.json' % i, replay, key=key)
         elif not doc or not doc.get('shape_ok'):
             ok = False
@@ -650,6 +675,9 @@ def main():
         bump('oracle-ok' if ok else 'oracle-fail')
         # -- correspondence with the extracted model
         t = ml.split()
+        if cs.get('model_skipped'):
+            model_skipped_wild += 1
+            continue
         if not t or t[0] == 'NOKERNEL':
             model_skipped += 1
             nokernel_models.add(name)
@@ -810,6 +838,9 @@ def main():
     if not dm[0].startswith('RESP L 1 decode O null S null'):
         c.corr_broken.append({'decode-failure': dm[0]})
 
+    debug['corr'] = c.corr_broken
+    with open(os.path.join(OUT, 'C17', 'debug.json'), 'w') as fh:
+        json.dump(debug, fh, indent=1)
     c.cov['rule'] = (
         'structured: for each of the %d catalogued models (names and descriptions read from the running binary) requests with '
         'full / random subsets / supersets / shuffled / duplicated parameters and inputs, series lengths 0,1,2,7,40 with one '
@@ -824,7 +855,7 @@ def main():
         'text / view command; non-trivial = not the plain full request (something missing, extra, reordered, duplicated, '
         'unequal, error class or defaults used), JSA views of rank >= 2, every malformed string' % len(desc))
     c.finish(extra_cov={'exhaustive': False, 'breakdown': dict(sorted(stats.items())),
-                        'model_run_single_compared': model_compared, 'model_run_single_skipped_no_kernel': model_skipped,
+                        'model_run_single_compared': model_compared, 'model_run_single_skipped_no_kernel': model_skipped, 'model_run_single_skipped_huge_parameter': model_skipped_wild,
                         'models_with_registered_kernel': sorted(x for x in registry_models if x),
                         'models_without_registered_kernel': sorted(x for x in nokernel_models if x),
                         'nonfinite_leaves_seen': nonfinite_leaves, 'jsa_cases': len(jcases), 'jsa_impl_panics_out_of_range_shift': jsa_panics,
